@@ -205,6 +205,21 @@ PROPS = {
         "bounds": {"quick": "one quote; timestamp and clock fully symbolic (64-bit seconds); 9 single-field alterations incl. key and claimed identity; proofs of 1..2 quotes with each quote genuine / forged / signed by another node; historical_verify with symbolic timestamps in both argument orders"},
         "outside": ["ed25519/RSA and protobuf key decoding (ideal scheme)", "sub-second timestamp differences (the code signs whole seconds)", "byte-level injectivity of the signed encoding for all field values (msgpack is trusted to be injective)"],
     },
+    "C15": {
+        "parts": [
+            {"engine": "D", "crate": "d_node", "harnesses": [
+                {"name": "c15_chunk", "covers": ["returned", "error"], "quick": {"max_paths": 1000, "timeout": 300}},
+                {"name": "c15_vault", "covers": ["returned", "error"], "quick": {"max_paths": 10000, "timeout": 600}},
+            ]},
+        ],
+        "assumptions": NODE_ASSUMPTIONS[:1] + [
+            "items chunk_get (autonomi/src/client/data/public.rs) and get_vault_from_network (vault.rs) are transplanted into a model Client whose network handle returns whatever reply the harness chooses (any record, SplitRecord set or error an adversarial holder set could produce)",
+            "scratchpad counters are symbolic 64-bit values (one further checked substitution: the u64::MAX literal in the vault code); real blsttc signatures; real rmp record decoding",
+            "most reply shapes are discrete and explored by choice forks; the solver decides the counter order of split versions",
+        ],
+        "bounds": {"quick": "chunk reads: 5 reply shapes (requested chunk, other chunk under the requested key, other kind, garbage, not found); vault reads: single reply or split into two versions, each owner in {requested, foreign} x signature in {valid, forged}, counters symbolic"},
+        "outside": ["fetch_from_data_map over self_encryption (C14, not applicable)", "more than two split versions (std HashMap iteration order of the real SplitRecord map would make re-execution non-deterministic)", "decryption of the vault content"],
+    },
     "C16": {
         "parts": [
             {"engine": "K", "crate": "k_evm", "harnesses": [
